@@ -245,6 +245,58 @@ def r12_4_index_range(ctx):
         ctx.check(worst <= 255, "R12.4", "createConstantBlocks:intc-index", f"258 distinct repeated integers >= 128 compile to `intc {worst}`: the index does not fit the opcode's one-byte immediate, the assembler rejects the program", f.where, fact={"max_index": worst})
     except Raised as r:
         ctx.ok("R12.4", "createConstantBlocks:intc-index", {"refused": r.exc_text[:60]}, f.where)
+    # the same for byte-like constants, and every load site must still find its value (in the block or pushed)
+    import base64 as _b64
+
+    def oracle_b(e, me):
+        t = u(e)
+        if t == "base64":
+            return _b64
+        if t == "encoding":
+            return Sym("encoding", methods={"checksum": fake_checksum, "decode_address": fake_decode_address})
+        return oracle(e, me)
+
+    util = ctx.model.module("pyteal.util")
+    helpers_b = dict(helpers)
+    helpers_b.update({x.name: x.node for x in util.all_funcs if x.cls is None and x.name in ("unescapeStr", "correctBase32Padding")})
+    for label, mk in (("byte", lambda k: ("byte", "0x%04x" % k)), ("byte and method", lambda k: (("byte", "0x%04x" % k) if k % 2 else ("method_signature", '"m%d()void"' % k)))):
+        ops = []
+        for k in range(260):
+            for _ in range(2):
+                opn, arg = mk(k)
+                ops.append(_const_op(OpS, opn, arg, len(ops)))
+        construct = f"createConstantBlocks:bytec-index[{label}]"
+        try:
+            val, _ = run_function(f.node, {"ops": list(ops)}, oracle_b, f.fq, resolver=lambda nm: helpers_b.get(nm), setup=setup)
+        except Raised as r:
+            ctx.ok("R12.4", construct, {"refused": r.exc_text[:60]}, f.where)
+            continue
+        out = list(val)
+        block = next(([block_value(a) for a in x.args] for x in out if isinstance(x, OpVal) and x.op == "bytecblock"), [])
+        body = [x for x in out if not (isinstance(x, OpVal) and x.op in ("bytecblock", "intcblock"))]
+        problems = []
+        for orig, new in zip(ops, body):
+            want = ref_value(orig.name.split(" ", 1)[0], orig.attrs["args"][0])
+            if isinstance(new, OpVal) and new.op == "bytec":
+                i = new.args[0]
+                if not (isinstance(i, int) and 0 <= i <= 255):
+                    problems.append(f"`bytec {i}` does not fit the one-byte immediate")
+                elif i >= len(block) or block[i] != want:
+                    problems.append(f"`bytec {i}` loads {block[i] if i < len(block) else 'nothing (block has ' + str(len(block)) + ' entries)'} instead of {want!r}")
+            elif isinstance(new, OpVal) and new.op.startswith("bytec_"):
+                i = int(new.op[6])
+                if i >= len(block) or block[i] != want:
+                    problems.append(f"`{new.op}` loads the wrong entry")
+            elif isinstance(new, OpVal) and new.op == "pushbytes":
+                if block_value(new.args[0]) != want:
+                    problems.append("pushbytes pushes the wrong value")
+            else:
+                problems.append(f"{orig.name} became {new!r}")
+            if len(problems) > 3:
+                break
+        if len(block) > 256:
+            problems.append(f"bytecblock has {len(block)} entries")
+        ctx.check(not problems, "R12.4", construct, f"260 distinct repeated byte constants: {'; '.join(problems[:3])}", f.where, fact={"block_entries": len(block)})
 
 
 def _sdk_enum_member(ctx, module_name: str, cls_name: str, member: str):
